@@ -9,6 +9,7 @@ claimed = {
  "C03": ("sched-dfs", SCHED, "all schedules/arrival orders (to the stated bound) of write-then-close on a Session pair: data and closing frame on any connection, 0..3 frames, either side, simultaneous close, local close with buffered bytes, singleplex", "the server's accept loop is already waiting when traffic starts (as serveSession is); small configurations"),
  "C04": ("enum", ENUM, "every payload length 1..16132 x 4 methods (one slice per method in quick, the full product of sequence numbers around the padding threshold x closing flags x padding extremes x 3 keys x both buffer placements in thorough), all padding lengths on the extreme lengths; oracle: independent reference codec decodes the implementation's bytes, re-encodes them identically, and the implementation decodes the reference's messages; size limit; in-place == separate", "the Go crypto primitives (AES-GCM, ChaCha20-Poly1305, Salsa20) are shared with the reference and trusted; stream ids/keys from a small fixed set"),
  "C05": ("enum+sched-dfs", ENUM + "; plus exhaustive schedule exploration of concurrent writers", "all 2^(L-1) segmentations of every sequence of <=3 messages of 0..3 bytes (stream <=16 bytes quick, <=22 thorough); records of 300/16384/16640 bytes with every single cut and all cut pairs around header/body boundaries, reader buffers record-1/record/record+1/20480; one-Write-per-record on the sender; all schedules of 2-3 concurrent writers on one TLSConn and on one WebSocketConn (gorilla pair over an in-memory byte stream); every single cut of a WebSocket message stream", "gorilla/websocket's own framing is trusted; loopback TCP is not used (the scripted connection delivers exactly the enumerated segmentations)"),
+ "C08": ("sched-dfs", SCHED + " on a virtual clock; histories are explorer data choices", "all histories up to depth 4-5 (quick) / 5-6 (thorough) over {present P1, present P2, present the bit-255 variant of P1, advance the server clock by 1s/179s/181s/359s/361s/12h-1s/12h} x 3 phases of the 12-hourly cleaner, with the cleaner goroutine interleaved by the scheduler; all schedules of 2-3 simultaneous presentations of one packet, also at the instant of a clean-up; oracle: acceptances per sealed identity block <= 1", "the only key-less alteration that still authenticates and changes the 32 raw key bytes is bit 255 (C07's bit-flip sweep shows every other accepted flip leaves those bytes alone)"),
  "C11": ("enum", ENUM, "every single-bit flip at every position, every truncation and extensions by 1..16 bytes of encoder output at 5 sizes x 3 AEAD methods; 8x8 matrix of (sealed under method/key A, opened under B); Session.recvDataFromRemote on every length 0..20480 x 3 fills x 4 methods with a valid frame interleaved", "bit flips are single; multi-byte corruptions only through the length sweep"),
  "C12": ("sched-dfs", SCHED + "; faults (reset, in-record EOF, Session.Close) are threads whose position is enumerated by the scheduler; timers on a virtual clock", "fault position x schedule exploration on a Session pair: reset / in-record EOF classes / Close by either side during open-transfer-close; Session.Close racing OpenStream/Read/Write/Stream.Close; stream counter at quiescence; inactivity timer racing stream opening on a virtual clock", "one fault per execution; fault position within the deviation bound; TLSConn over a vnet byte stream for in-record faults"),
  "C14": ("sched-dfs+enum", SCHED + "; plus exhaustive enumeration of datagram sizes", "all schedules (to the bound) of concurrent datagram senders on 1-2 unordered streams over 1-3 connections with reader buffers around the datagram size; the datagram pipe alone with 2 writers and 1 reader, unbounded; every datagram size 1..max+2 for every method", "no close/fault during the exchange (exactly-once clause); RouteUDP's socket loop is not explored"),
